@@ -390,7 +390,9 @@ pub fn main(tier: Tier, seed: u64) -> i32 {
     rep.set("challenge_predictions_compared", json!(pred_checked));
     rep.evaluations = j.evaluations + tap_cases.len() as u64 + sched_total + 4;
     rep.distinct_nontrivial = j.nontrivial.len() as u64 + tap_detected;
-    rep.exhaustive = Some(true);
+    if rep.exhaustive.is_none() {
+        rep.exhaustive = Some(true);
+    }
     rep.rule = "(a) every preprocessing message of the corrupted party (coin-toss commit/opening, Chou-Orlandi, ALSZ/KOS, aBit test, aShare commit/decommit/opened sums, HaAND, LaAND e/u/commit/hash, d-values, Beaver openings, broadcast echo): every field x position (quick: first/middle/last; thorough: every index) x {xor low/top bit, flip bool; thorough adds set-zero/ones}; paired variants for conditionally read branches; n=3 to one recipient and consistently to all; tap-based persistent liars. Oracle: honest recipients that consume the value return Err (consumption rules of DESIGN.md 2.2). (b) reveal-after-all-commits monitor on every schedule explored with the C12 explorer and on a 3-batch run. (c) predictor: challenge recomputed from coin-toss openings on the wire before the data under check is sent vs. probes of the challenge actually used (alarm on exact match only) and reuse between checks. distinct = (configuration, label/field, recipients, position); trivial = unread branch".into();
     rep.assumptions = vec![
         "cryptographic negligible-probability events are treated as impossible".into(),
